@@ -252,7 +252,12 @@ def run_case(desc):
                    if e['kind'] == 'sql' and e.get('mutating') and e['ok']
                    and 'django_migrations' not in e['sql']]
         ctx = {'perturbation': kind, 'why': why.split(':')[0],
-               'two_apps': two, 'implicit_null': implicit_null}
+               'two_apps': two, 'implicit_null': implicit_null,
+               # the (perturbed) evolution holds a type-changing ChangeField
+               # that makes a nullable column NOT NULL without saying null=
+               'has_implicit_notnull_typechange': any(
+                   e.get('new_kind') and e['attrs'].get('null') is False
+                   and not e.get('explicit_null') for e in pedits)}
         if ok:
             stats['benign'] = 1
             if not o['ok']:
